@@ -1582,8 +1582,12 @@ func streamCancel(c *Ctx) {
 					go func() { time.Sleep(150 * time.Millisecond); cancel(cause) }()
 					more := st.Receive()
 					got := fmt.Sprintf("more=%v err=%s", more, codeName(st.Err()))
+					full := fmt.Sprintf("%v", st.Err())
 					_ = st.Close()
-					return got, got == "more=false err=canceled"
+					if got != "more=false err=canceled" {
+						return got + " [" + full + "]", false
+					}
+					return got, true
 				}})
 			}
 		}
